@@ -504,6 +504,388 @@ def run_vi_walk(exe, init, cmds, j, i, pre='', timeout=20):
 
 
 # ---------------------------------------------------------------------------------------------
+# end to end: several buffers (exbufs).  Phase 1 = command lines `p1|p2|...` whose parts edit the current buffer
+# (absolute addresses only) and switch (e! name, e! #, and with `se wa` also e / b N / b # / b ^ / b + / b - / next /
+# prev; q with a modified buffer), phase 2 = a walk: enter a buffer by name, u / redo / a new edit, the text read
+# back after every step.  Two runs: the OBSERVED run prints the text after every PART of every phase-1 line (markers
+# inside the line: no command boundary is added) and gives, per buffer, the list of texts after every line that
+# changed it; the BLIND run has nothing between the phase-1 lines, so that only the bumps of bufs_switch() and of
+# ex_command() separate the undo steps.  Oracle: per-buffer undo stacks, one step per command line per buffer (a line
+# that edits A, switches and edits B makes one step in each); buffers are recognised by a tag F<k> in every line.
+
+BTAG = re.compile(rb'\bF(\d)\b')
+BVIEW = 'view0'
+
+
+def bufs_files(rng, nf):
+    files = {}
+    for k in range(nf):
+        nl = rng.range(4, 8)
+        files['f%d' % k] = ''.join('%d%c F%d %s\n' % (k, 97 + i, k, rng.choice(WORDS)) for i in range(nl))
+    return files
+
+
+def bufs_case(rng, aimed):
+    """Returns a case dict.  A small simulation of the buffer list (most recently used order, ids in opening
+    order, argument position) only SHAPES the lines (which switch commands exist, never re-enter a buffer that the
+    same line already edited); the oracle does not use it."""
+    nf = rng.range(3, 5)
+    names = ['f%d' % k for k in range(nf)]
+    wa = not rng.chance(1, 3)
+    mru, ids, pos = ['f0'], {'f0': 1}, [0]
+    uniq = [0]
+    edited = set()
+
+    def enter(x):
+        if x in mru:
+            mru.remove(x)
+        else:
+            ids[x] = len(ids) + 1
+        mru.insert(0, x)
+
+    def edit_part(last):
+        uniq[0] += 1
+        n = uniq[0]
+        a = rng.choice(['1', '2', '3', '$', '1', '2'])
+        k = rng.below(12 if last else 10)
+        if k < 2:
+            return '%sd' % a
+        if k < 5:
+            return '%ss/^/T%d /' % (a, n)
+        if k < 7:
+            return '%ss/$/ U%d/' % (a, n)
+        if k == 7:
+            return '%sy|%spu' % (a, rng.choice(['1', '2', '$']))
+        if k == 8:
+            return '1,2s/$/ V%d/' % n
+        if k == 9:
+            return '%%s/^/P%d/' % n
+        return 'g/%s/s/$/ G%d/' % (rng.choice(['F', 'a F', 'b F']), n)
+
+    def switches(avoid):
+        """(command text, target name) of every switch command that the simulation says goes to a buffer other than the
+        current one and not in `avoid`"""
+        out = []
+        cur = mru[0]
+        for x in names:
+            if x != cur and x not in avoid:
+                out.append(('e! %s' % x, x))
+                if wa:
+                    out.append(('e %s' % x, x))
+                    if x in ids:
+                        out.append(('b %d' % ids[x], x))
+        if len(mru) >= 2 and mru[1] not in avoid:
+            out.append(('e! #', mru[1]))
+            if wa:
+                out += [('b #', mru[1]), ('e #', mru[1])]
+        if wa and len(mru) >= 3 and mru[2] not in avoid:
+            out.append(('b ^', mru[2]))
+        if wa:
+            up = [x for x in mru if ids[x] > ids[cur]]
+            dn = [x for x in mru if ids[x] < ids[cur]]
+            if up:
+                x = min(up, key=lambda y: ids[y])
+                if x not in avoid:
+                    out.append(('b +', x))
+            if dn:
+                x = max(dn, key=lambda y: ids[y])
+                if x not in avoid:
+                    out.append(('b -', x))
+            if pos[0] + 1 < nf and names[pos[0] + 1] != cur and names[pos[0] + 1] not in avoid:
+                out.append(('next', names[pos[0] + 1]))
+            if pos[0] - 1 >= 0 and names[pos[0] - 1] != cur and names[pos[0] - 1] not in avoid:
+                out.append(('prev', names[pos[0] - 1]))
+        return out
+
+    def do_switch(parts, avoid, want=None, far=False):
+        sw = switches(avoid)
+        if want is not None:
+            sw = [s for s in sw if s[1] == want] or sw
+        if far:         # the buffer entered is the third or a later one of the list, or a new one
+            sw2 = [s for s in sw if s[1] not in mru[:2]]
+            sw = sw2 or sw
+        if not sw:
+            return False
+        c, x = rng.choice(sw)
+        if c == 'next':
+            pos[0] += 1
+        elif c == 'prev':
+            pos[0] -= 1
+        parts.append(['s', c])
+        enter(x)
+        return True
+
+    def do_edits(parts, touched, last_ok):
+        n = rng.choice([1, 1, 2, 3])
+        for i in range(n):
+            parts.append(['e', edit_part(False)])
+        touched.add(mru[0])
+        edited.add(mru[0])
+
+    HARMLESS = ['=', '1p', 'b 9', '/nosuchtext/', 'ec hi', "'zp", '99p']
+
+    def line(shape, want=None, far=False):
+        parts, touched = [], set()
+        for k, ch in enumerate(shape):
+            if ch == 'E':
+                do_edits(parts, touched, k == len(shape) - 1)
+            elif ch == 'S':
+                do_switch(parts, touched, want, far)
+            elif ch == 'x':
+                parts.append(['x', rng.choice(HARMLESS)])
+        r = rng.below(8)
+        if parts and parts[-1][0] == 'e' and r > 2 and rng.chance(1, 4):
+            parts[-1][1] = edit_part(True)           # g takes the rest of the line as its command list: last part only
+        if r == 0:
+            parts.append(['x', rng.choice(HARMLESS)])
+        elif r == 1:
+            parts.append(['x', 'b'])
+        elif r == 2 and edited and mru[0] in edited:
+            parts.append(['s', 'q'])           # current buffer modified: "buffer modified", bufs_switch(0)
+        return parts
+
+    SHAPES = ['ES', 'SE', 'ESE', 'SES', 'SESE', 'E', 'S', 'ExS', 'SxE', 'ESES']
+    lines = []
+    if aimed:
+        # edit X and leave it in the same line for a buffer that is not the alternate one; maybe other lines that do
+        # not enter X alone; then a line that comes back and edits
+        for _ in range(rng.choice([0, 1, 2])):
+            lines.append(line(rng.choice(['S', 'SE', 'ES'])))
+        x = mru[0]
+        lines.append(line(rng.choice(['ES', 'ES', 'ESE']), far=True))
+        for _ in range(rng.choice([0, 0, 1, 2])):
+            if mru[0] == x:
+                break
+            parts, touched = [], {x}
+            for ch in rng.choice(['E', 'ES', 'SE']):
+                if ch == 'E':
+                    do_edits(parts, touched, False)
+                else:
+                    do_switch(parts, touched)
+            if parts:
+                lines.append(parts)
+        if mru[0] != x:
+            lines.append(line(rng.choice(['SE', 'SE', 'SES', 'ESE']), want=x))
+        for _ in range(rng.choice([0, 1, 2])):
+            lines.append(line(rng.choice(SHAPES)))
+    else:
+        for _ in range(rng.choice([4, 6, 9, 12])):
+            lines.append(line(rng.choice(SHAPES)))
+    lines = [l for l in lines if l]
+    # phase 2
+    opened = list(mru)
+    rng.shuffle(opened)
+    walk = []
+    for rnd in range(2):
+        for x in (opened if rnd == 0 else opened[:rng.below(len(opened) + 1)]):
+            walk.append(['go', x])
+            j = rng.range(1, 4)
+            i = rng.range(0, j)
+            walk += [['u']] * j + [['r']] * i
+            if rng.chance(1, 3):
+                uniq[0] += 1
+                walk.append(['m', '%ss/^/W%d /' % (rng.choice(['1', '2', '$']), uniq[0])])
+                walk += [['r']] + [['u']] * rng.range(1, 3) + [['r']] * rng.below(3)
+    return {'kind': 'exbufs', 'files': bufs_files(rng, nf), 'wa': wa, 'lines': lines, 'walk': walk}
+
+
+def bufs_ident(t):
+    tags = set(BTAG.findall(t))
+    return int(tags.pop()) if len(tags) == 1 else None
+
+
+def bufs_observed(case):
+    """script of the observed run: markers and %p after every part inside the line (no command boundary added),
+    after the last part on lines of their own"""
+    s = ['se wa'] if case['wa'] else []
+    for k, parts in enumerate(case['lines']):
+        ln = []
+        for p, (kind, c) in enumerate(parts):
+            ln.append(c)
+            if p + 1 < len(parts):
+                ln += ['ec @@%d.%d@@' % (k, p), '%p', 'ec @@-@@']
+        s.append('|'.join(ln))
+        s += ['ec @@%d.%d@@' % (k, len(parts) - 1), '%p', 'ec @@-@@']
+    s += ['ec @@END@@', 'q!']
+    return ('\n'.join(s) + '\n').encode()
+
+
+def bufs_blind(case):
+    s = ['se wa'] if case['wa'] else []
+    for parts in case['lines']:
+        s.append('|'.join(c for _, c in parts))
+    for k, st in enumerate(case['walk']):
+        s.append({'go': 'e! %s' % st[-1], 'u': 'u', 'r': 'redo', 'm': st[-1]}[st[0]])
+        s += ['ec @@w.%d@@' % k, '%p', 'ec @@-@@']
+    s += ['ec @@END@@', 'q!']
+    return ('\n'.join(s) + '\n').encode()
+
+
+def bufs_marks(out):
+    parts = re.split(rb'@@([\w.]+|-)@@', out)
+    got = {}
+    for i in range(1, len(parts) - 1, 2):
+        if parts[i] != b'-':
+            got[parts[i].decode()] = parts[i + 1]
+    return got if b'END' in parts else None
+
+
+def bufs_reference(case, got):
+    """per-buffer texts after every line that changed the buffer, from the observed run.
+    Returns ('ok', {tag: [t0, t1, ..]}, per-part records) or ('ambiguous', why)"""
+    files = {int(n[1:]): t.encode() for n, t in case['files'].items()}
+    H = {0: [files[0]]}
+    cur = 0
+    recs = []
+    for k, parts in enumerate(case['lines']):
+        stepped = set()
+        entry = H[cur][-1]
+        seen = [entry]
+        rec = []
+
+        def close():
+            if seen[-1] != entry:
+                if cur in stepped:
+                    return 'one line edits buffer f%d in two separate visits (leaving a buffer ends its step: a convention)' % cur
+                stepped.add(cur)
+                H[cur].append(seen[-1])
+            elif any(t != entry for t in seen):
+                return 'a visit changed the text and changed it back'
+            return None
+        for p, (kind, c) in enumerate(parts):
+            t = got.get('%d.%d' % (k, p))
+            if t is None:
+                return ('ambiguous', 'incomplete output')
+            if kind == 's':
+                why = close()
+                if why:
+                    return ('ambiguous', why)
+                x = bufs_ident(t)
+                if x is None or x not in files:
+                    return ('ambiguous', 'the buffer entered cannot be recognised (no line left)')
+                cur = x
+                if cur not in H:
+                    H[cur] = [t]
+                entry = t             # what the buffer holds when it is entered (C20 says: what it held when it was left)
+                seen = [t]
+            else:
+                if kind == 'x' and c == 'b' and p + 1 < len(parts):
+                    return ('ambiguous', 'buffer listing inside a visit')
+                seen.append(t)
+            rec.append((kind, c, cur, t))
+        why = close()
+        if why:
+            return ('ambiguous', why)
+        recs.append(rec)
+    return ('ok', H, recs)
+
+
+def bufs_oracle(case, H, got):
+    """the walk of the blind run against per-buffer stacks.  None or (step, what, expected, observed)"""
+    files = {int(n[1:]): t.encode() for n, t in case['files'].items()}
+    st = {x: [list(h[:-1]), h[-1], []] for x, h in H.items()}
+    cur = None
+    for k, step in enumerate(case['walk']):
+        now = got.get('w.%d' % k)
+        if now is None:
+            return (k, 'incomplete output', None, None)
+        if step[0] == 'go':
+            cur = int(step[1][1:])
+            if cur not in st:
+                st[cur] = [[], files[cur], []]
+            if now != st[cur][1]:
+                return (k, 'buffer %s entered again: its text is not the text it had after the last command line that changed it' % step[1], st[cur][1], now)
+            continue
+        past, t, fut = st[cur]
+        if step[0] == 'u':
+            if past:
+                fut.append(t)
+                t = past.pop()
+                what = 'undo in buffer f%d did not restore the text before the most recent not-yet-undone modifying command line of that buffer' % cur
+            else:
+                what = 'undo at the start of the history of buffer f%d must leave the text alone' % cur
+        elif step[0] == 'r':
+            if fut:
+                past.append(t)
+                t = fut.pop()
+                what = 'redo in buffer f%d did not reinstate what the matching undo removed' % cur
+            else:
+                what = 'redo with an empty redo branch in buffer f%d must leave the text alone' % cur
+        else:
+            if now != t:
+                past.append(t)
+                t = now
+                del fut[:]
+            what = ''
+        st[cur][1] = t
+        if now != t:
+            return (k, what, t, now)
+    return None
+
+
+def run_bufs_case(exe, case, timeout=20):
+    def ex(script):
+        files = {n: t.encode() for n, t in case['files'].items()}
+        args = sorted(files)
+        r = vlib.run_ex(exe, script, files=files, args=args, timeout=timeout)
+        if r.timed_out or r.crashed():
+            r = vlib.run_ex(exe, script, files=files, args=args, timeout=3 * timeout)
+        return r
+    if not case['lines'] and not case['walk']:
+        return ('incomplete', b'')
+    ra = ex(bufs_observed(case))
+    if ra.timed_out or ra.crashed():
+        return ('incomplete', b'')
+    ga = bufs_marks(ra.out)
+    if ga is None:
+        return ('incomplete', ra.out[-300:])
+    ref = bufs_reference(case, ga)
+    if ref[0] != 'ok':
+        return ref
+    rb = ex(bufs_blind(case))
+    if rb.timed_out or rb.crashed():
+        return ('crash', 'editor crashed or hung (rc=%s timed_out=%s): %s' % (rb.rc, rb.timed_out, rb.err[-600:]))
+    gb = bufs_marks(rb.out)
+    if gb is None:
+        return ('incomplete', rb.out[-300:])
+    bad = bufs_oracle(case, ref[1], gb)
+    if bad and bad[2] is None:
+        return ('incomplete', b'')
+    info = {'H': ref[1], 'recs': ref[2], 'walk': [gb.get('w.%d' % k) for k in range(len(case['walk']))]}
+    return ('bad', bad, info) if bad else ('ok', info)
+
+
+def bufs_shrink(exe, case):
+    def with_(lines, walk):
+        c = dict(case)
+        c['lines'], c['walk'] = lines, walk
+        return c
+
+    def bad(c):
+        return run_bufs_case(exe, c)[0] == 'bad'
+    lines, walk = case['lines'], case['walk']
+    if len(lines) > 1:
+        lines = vlib.shrink(lines, lambda sub: bad(with_(sub, walk)), max_steps=60)
+    # a failing walk can be cut after the failing step; then drop steps
+    r = run_bufs_case(exe, with_(lines, walk))
+    if r[0] == 'bad':
+        walk = walk[:r[1][0] + 1]
+    if len(walk) > 1:
+        walk = vlib.shrink(walk, lambda sub: sub[0][0] == 'go' and bad(with_(lines, sub)), max_steps=60)
+    # parts of the remaining lines
+    for i in range(len(lines)):
+        if len(lines[i]) > 1:
+            keep = vlib.shrink(lines[i], lambda sub: bad(with_(lines[:i] + [sub] + lines[i + 1:], walk)), max_steps=30)
+            lines = lines[:i] + [keep] + lines[i + 1:]
+    return with_(lines, walk)
+
+
+def bufs_describe(case):
+    return (['se wa'] if case['wa'] else []) + ['|'.join(c for _, c in parts) for parts in case['lines']] + \
+           [{'go': 'e! %s' % s[-1], 'u': 'u', 'r': 'redo', 'm': s[-1]}[s[0]] for s in case['walk']]
+
+
+# ---------------------------------------------------------------------------------------------
 
 
 def run(ctx):
@@ -574,6 +956,22 @@ def run(ctx):
                        'expected': 'one of ' + repr(bad[2]), 'observed': repr(bad[3]),
                        'texts': [t.decode('latin-1') for t in r2[2]]})
 
+    def report_bufs(case, r, shrink=True):
+        small = case
+        if shrink:
+            small = bufs_shrink(vi, case)
+            r2 = run_bufs_case(vi, small)
+            if r2[0] == 'bad':
+                r = r2
+            else:
+                small = case
+        bad, info = r[1], r[2]
+        step = small['walk'][bad[0]]
+        res.violation({'what': 'ex, several buffers, walk step %d (%s): %s' % (bad[0] + 1, {'go': 'e! %s' % step[-1], 'u': 'u', 'r': 'redo', 'm': step[-1]}[step[0]], bad[1]),
+                       'input': small, 'script': bufs_describe(small),
+                       'expected': repr(bad[2]), 'observed': repr(bad[3]),
+                       'texts_per_buffer_after_every_line_that_changed_it': {'f%d' % x: [t.decode('latin-1') for t in h] for x, h in info['H'].items()}})
+
     def run_input(inp):
         if inp.get('kind') == 'lbuf':
             one_lbuf(vlib.unhx(inp['init']), list(inp['ops']), 'replay')
@@ -588,6 +986,13 @@ def run(ctx):
             if got != inp['expect']:
                 res.violation({'what': 'ex: the undo after these command lines did not restore the text before the most recent modifying command line',
                                'input': inp, 'expected': inp['expect'], 'observed': got})
+        elif inp.get('kind') == 'exbufs':
+            r = run_bufs_case(vi, inp)
+            res.evaluations += 1
+            if r[0] == 'bad':
+                report_bufs(inp, r, False)
+            elif r[0] == 'crash':
+                res.violation({'what': 'ex, several buffers: ' + r[1], 'input': inp})
         elif inp.get('kind') == 'exwalk':
             r = run_ex_walk(vi, inp['file'].encode('latin-1'), [tuple(c) for c in inp['cmds']], inp['undos'], inp['redos'])
             res.evaluations += 1
@@ -692,6 +1097,36 @@ def run(ctx):
             res.violation({'what': 'ex: ' + r[1][1], 'input': inp, 'expected': repr(r[1][2]), 'observed': repr(r[1][3]), 'texts': [t.decode('latin-1') for t in r[2]]})
         elif r[0] == 'crash':
             res.violation({'what': 'ex: ' + r[1], 'input': inp})
+    # ---- several buffers: command lines that edit and switch, then undo/redo walks in every buffer
+    r7 = rng.fork('exbufs')
+    nbc = 240 if ctx.quick else 6000
+    bcases = [bufs_case(r7, aimed=(k % 3 == 0)) for k in range(nbc)]
+    bouts = vlib.pmap(lambda c: run_bufs_case(vi, c), bcases)
+    nrep = 0
+    for c, r in zip(bcases, bouts):
+        res.evaluations += 1
+        res.count('ex several-buffer histories' + ('' if r[0] in ('ok', 'bad') else ' (%s)' % r[0]))
+        if r[0] == 'ambiguous':
+            res.count('ex several-buffer histories dropped: ' + r[1])
+        if r[0] in ('ok', 'bad'):
+            H = (r[1] if r[0] == 'ok' else r[2])['H']
+            recs = (r[1] if r[0] == 'ok' else r[2])['recs']
+            res.nontriv('bufs' + repr(bufs_describe(c)))
+            if sum(1 for h in H.values() if len(h) > 1) >= 2:
+                res.count('ex several-buffer histories with undo steps in two or more buffers')
+            for rec in recs:
+                # a line that changes a buffer and then leaves it / enters a buffer and then changes it
+                ks = [x[0] for x in rec]
+                if 'e' in ks and 's' in ks[ks.index('e'):]:
+                    res.count('ex command lines that edit and then switch')
+                    break
+        if r[0] == 'bad' and nrep < 2:
+            nrep += 1
+            report_bufs(c, r)
+        elif r[0] == 'crash':
+            res.violation({'what': 'ex, several buffers: ' + r[1], 'input': c})
+    if bcases:
+        res.sample({'kind': 'exbufs', 'script': bufs_describe(bcases[0])})
     r5 = rng.fork('viwalk')
     walks = [vi_walk(r5) for _ in range(nvi)]
     wouts = vlib.pmap(lambda c: run_vi_walk(vi, *c), walks)
